@@ -127,6 +127,7 @@ class Package:
             "reduce": functools.reduce, "combinations": itertools.combinations, "product": itertools.product,
             "defaultdict": m_defaultdict, "Queue": MQueue, "bin": bin, "generic_flop": self.generic_flop,
         })
+        self._bind_imports(rel, env)
         bi = BlockInterp(env, max_steps=self.max_steps)
         bi.me.env = env  # share the dict: closures see functions defined later in the module
         tree = self.repo.tree[rel]
@@ -138,6 +139,39 @@ class Package:
                 continue
         self._bi = bi
         return env
+
+    # ---- names imported from sibling modules -----------------------------
+    def _bind_imports(self, rel, env):
+        from .verilogmodel import MRe
+
+        env.setdefault("re", MRe())
+        reexports = {"parse_verilog_netlist": "parsing/verilog.py", "fast_parse_verilog_netlist": "parsing/fast_verilog.py"}
+        modfile = {"circuitgraph.io": "io.py", "circuitgraph.utils": "utils.py", "circuitgraph.tx": "tx.py", "circuitgraph.sat": "sat.py", "circuitgraph.props": "props.py",
+                   "circuitgraph.logic": "logic.py", "circuitgraph.parsing.verilog": "parsing/verilog.py", "circuitgraph.parsing.fast_verilog": "parsing/fast_verilog.py"}
+        for st in self.repo.tree[rel].body:
+            if not isinstance(st, ast.ImportFrom) or not st.module or not st.module.startswith("circuitgraph"):
+                continue
+            for al in st.names:
+                nm = al.asname or al.name
+                if nm in env:
+                    continue
+                target = modfile.get(st.module)
+                if st.module == "circuitgraph.parsing" and al.name in reexports:
+                    target = reexports[al.name]
+                if target is None:
+                    continue
+                if al.name == "parse_verilog_netlist":
+                    env[nm] = self._full_parser
+                elif (target, al.name) in self.repo.funcs or (target, al.name) in self.overrides:
+                    env[nm] = (lambda t, n: (lambda *a, **k: self.func(t, n)(*a, **k)))(target, al.name)
+
+    def _full_parser(self, netlist, blackboxes, warnings=False, error_on_warning=False):
+        from .verilogmodel import ParseError, full_parse
+
+        try:
+            return full_parse(self, netlist, blackboxes or [], warnings, error_on_warning)
+        except ParseError as e:
+            raise ModelRaise(e.kind, e.msg)
 
     def call(self, rel, name, *args, **kwargs):
         """Call a repository function (evaluated from source). Returns ('return', v) | ('raise', kind)."""
